@@ -48,6 +48,9 @@ def run(chk):
     scs = [gen.gen_success_scenario(rng) for _ in range(N)]
     for sc in scs:
         sc['same_func'] = rng.random() < .3
+    for _sc in scs:
+        if rng.random() < .25 and 'rules' not in _sc:
+            _sc['rules'] = gen.schedule_rules(rng, _sc['pool']['n_jobs'])      # adversarial schedules
     obs = run_scenarios(chk, 'whole calls under DetSim (oracle: result == sequential evaluation)', scs, {'C01'},
                         nontrivial=lambda sc, o: any(op.get('n', 0) >= 2 for op in sc['ops']),
                         dist=lambda sc, o: {'n_jobs': sc['pool']['n_jobs'], 'start': sc['pool']['start_method'],
